@@ -232,8 +232,9 @@ def _coq_comment(text):
 
 
 def skel_def(name, lines):
-    body = ';\n'.join(f'  (* {_coq_comment(l)} *) {_h(l)}' for l in lines)
-    return f'Definition {name} : list Z := [\n{body}\n].'
+    """one hash per function over its normalised statements; the statements are kept as a comment"""
+    body = '\n'.join(f'   {_coq_comment(l)}' for l in lines)
+    return f'(*\n{body}\n*)\nDefinition {name} : Z := {_h(chr(10).join(lines))}.'
 
 
 # ----------------------------------------------------------------------------- stream guards
@@ -543,7 +544,7 @@ def translate(repo):
         texts[name] = lines
         out.append(skel_def('g_skel_' + name, lines))
         names.append(name)
-    out.append('Definition g_skeletons : list (list Z) := [' + '; '.join('g_skel_' + n for n in names) + '].')
+    out.append('Definition g_skeletons : list Z := [' + '; '.join('g_skel_' + n for n in names) + '].')
     out.append('')
     info['skeleton_functions'] = len(names)
     info['skeleton_statements'] = sum(len(v) for v in texts.values())
